@@ -18,14 +18,29 @@ def gen(rng, tier):
         P = [0] * n
         for _ in range(rng.randint(1, 4)): P[rng.randrange(n)] += 1
         out.append({"G": G, "fam": fam, "maxg": rng.choice([None, None] + list(range(0, n + 1))), "P": P, "v": rng.randrange(n), "q": rng.randrange(n),
-                    "qmax": rng.choice([None, None, 0, 1, 2, n]), "s": rng.randrange(1 << 30)})
+                    "qmax": rng.choice([None, None, 0, 1, 2, n]), "s": rng.randrange(1 << 30),
+                    "grow": ([rng.randrange(n), rng.randrange(n), rng.randint(1, 2)] if n >= 2 and rng.random() < 0.4 else None)})
+        if out[-1]["grow"] and out[-1]["grow"][0] == out[-1]["grow"][1]: out[-1]["grow"] = None
     return out
 def impl(c):
     from chipfiring.CFGonality import gonality, play_gonality_game, CFGonality
     from chipfiring.CFGonalityDhar import enhanced_dhar_gonality_test
     from chipfiring import CFDivisor
     rng = random.Random(c["s"]); G = c["G"]; names = G["names"]; idx = {x: i for i, x in enumerate(names)}
-    g = common.build_impl_graph(G, rng); out = {}
+    g = common.build_impl_graph(G, rng)
+    out = _battery(c, G, g, names, idx)
+    if c.get("grow"):       # history: the SAME graph object grows an edge, then every entry point is asked again (answers must be for the graph as it is now)
+        a, b, k = c["grow"]; g.add_edge(names[a], names[b], k)
+        out["after"] = _battery(c, G, g, names, idx)
+    return out
+def grown(c):
+    G = c["G"]; a, b, k = c["grow"]
+    return dict(c, G=common.mk_graph_like(G, G["edges"] + [[a, b, k]]), grow=None)
+def _battery(c, G, g, names, idx):
+    from chipfiring.CFGonality import gonality, play_gonality_game, CFGonality
+    from chipfiring.CFGonalityDhar import enhanced_dhar_gonality_test
+    from chipfiring import CFDivisor
+    out = {}
     for fs in (True, False):
         res = gonality(g, c["maxg"], find_strategies=fs)
         out["gon_%d" % fs] = res.gonality; out["strat_%d" % fs] = [common.div_to_list(G, s) for s in res.winning_strategies]
@@ -64,22 +79,40 @@ def judge(c, r, mo):
     return out[:2]
 TWO_STAGE = True
 _ml = model_lines
-def model_lines(c, r):
+def _ml2(c, o):
     ls = _ml(c)
-    if "ok" in r:
-        for fs in (1, 0):
-            for s in r["ok"]["strat_%d" % fs]:
-                if isinstance(s, list): ls.append(["strat"] + common.enc_graph(c["G"]) + common.enc_list(s))
+    for fs in (1, 0):
+        for s in o["strat_%d" % fs]:
+            if isinstance(s, list): ls.append(["strat"] + common.enc_graph(c["G"]) + common.enc_list(s))
+    return ls
+def model_lines(c, r):
+    if "ok" not in r: return _ml(c)
+    ls = _ml2(c, r["ok"])
+    if c.get("grow") and "after" in r["ok"]: ls += _ml2(grown(c), r["ok"]["after"])
     return ls
 _j = judge
-def judge(c, r, mo):
-    out = _j(c, r, mo[:5])
-    if "ok" in r and not out:
+def _j2(c, o, mo, tag):
+    out = _j(c, {"ok": o}, mo[:5])
+    if not out:
         for line in mo[5:]:
             if line[0] != "1": out.append({"what": "a reported winning strategy does not beat every opponent vertex (model strategy test: %s)" % line})
+    for x in out: x["what"] = tag + x["what"]
+    return out
+def judge(c, r, mo):
+    if "exc" in r: return _j(c, r, mo)
+    k1 = len(_ml2(c, r["ok"]))
+    out = _j2(c, r["ok"], mo[:k1], "")
+    if c.get("grow") and "after" in r["ok"] and not out:
+        out = _j2(grown(c), r["ok"]["after"], mo[k1:], "after add_edge%s on the same graph object: " % (tuple(c["grow"]),))
     return out[:2]
 def oracle(c, r):
     if r is None or "exc" in r: return {"violates": True, "why": "raised / no answer"}
+    a = _oracle1(c, r["ok"])
+    if not a["violates"] and c.get("grow") and "after" in r["ok"]:
+        a = _oracle1(grown(c), r["ok"]["after"]); a["why"] = ["after add_edge: " + w for w in a["why"]]
+    return a
+def _oracle1(c, o):
+    r = {"ok": o}
     m = O.mk(c["G"]); n = len(m); o = r["ok"]; why = []
     mg = n if c["maxg"] is None else c["maxg"]; truth = O.gonality(m, mg)
     for fs in (1, 0):
